@@ -68,6 +68,55 @@ def r_try():
     finally:
         pass
 
+def _decl2():
+    global GE, KeyError
+    GE = KeyError = None
+# global names read as 'except' patterns, i.e. while an exception is in flight (GE: plain global; KeyError: a builtin the
+# module may shadow, so a read that misses the module dict falls back to the builtins module)
+def r_exc_GE():
+    try:
+        raise LookupError(1)
+    except GE:
+        return "GE"
+    except Exception:
+        return "other"
+def r_exc_KeyError():
+    try:
+        raise LookupError(1)
+    except KeyError:
+        return "KeyError"
+    except Exception as e:
+        return ("other", type(e).__name__)
+def r_exc_tuple():
+    try:
+        raise ValueError(1)
+    except (GE, KeyError):
+        return "tuple"
+    except Exception:
+        return "other"
+def r_exc_nested():
+    try:
+        try:
+            raise IndexError(2)
+        finally:
+            x = KeyError
+    except KeyError:
+        return ("KeyError", x is KeyError)
+    except Exception:
+        return ("other", x is KeyError)
+def w_GE(v):
+    global GE
+    GE = v
+def w_KeyError(v):
+    global KeyError
+    KeyError = v
+def d_GE():
+    global GE
+    del GE
+def d_KeyError():
+    global KeyError
+    del KeyError
+
 def w_G0(v):
     global G0
     G0 = v
@@ -107,7 +156,10 @@ def d_repr():
 '''
 
 READERS = ["r_G0_a", "r_G0_b", "r_G0_twice", "r_G1_a", "r_G1_b", "r_G2_a", "r_len", "r_len2", "r_abs", "r_repr", "r_mix", "r_ord", "r_chr", "r_sorted", "r_round",
-           "r_closure", "r_lambda", "r_method", "r_static", "r_gen", "r_comp", "r_default", "r_try"]
+           "r_closure", "r_lambda", "r_method", "r_static", "r_gen", "r_comp", "r_default", "r_try",
+           "r_exc_GE", "r_exc_KeyError", "r_exc_tuple", "r_exc_nested"]
+EXC_NAMES = ["GE", "KeyError"]
+EXC_VALUES = [KeyError, LookupError, ValueError, IndexError, Exception, ArithmeticError, OSError]      # classes only: a tuple-valued global inside a tuple pattern trips an assert in __Pyx_PyErr_GivenExceptionMatches2 (exception matching, not name lookup; see DESIGN 0.3)
 
 
 def gen_history_c26(rng, maxlen, builtins_mutable):
@@ -118,11 +170,13 @@ def gen_history_c26(rng, maxlen, builtins_mutable):
         r = rng.random()
         if r < 0.40:
             ops.append(["r", rng.choice(READERS)])
+        elif r < 0.62 and rng.random() < 0.2:
+            ops.append(["we", rng.choice(EXC_NAMES), rng.choice(["compiled", "setattr", "dict"]), rng.randrange(len(EXC_VALUES))])
         elif r < 0.62:
             counter[0] += 1
             ops.append(["w", rng.choice(NAMES + SHADOW), rng.choice(["compiled", "setattr", "dict"]), counter[0]])
         elif r < 0.78:
-            ops.append(["d", rng.choice(NAMES + SHADOW), rng.choice(["compiled", "delattr", "dictpop"])])
+            ops.append(["d", rng.choice(NAMES + SHADOW + EXC_NAMES + EXC_NAMES), rng.choice(["compiled", "delattr", "dictpop"])])
         elif r < 0.86:
             ops.append(["grow", rng.randint(1, 40)])
         elif r < 0.90:
@@ -175,7 +229,7 @@ def run_history_c26(mod, ops):
     # reset module state: remove the declared names and junk
     d = mod.__dict__
     for k in list(d):
-        if k in NAMES or k in SHADOW or k in BI_UNDECL or k.startswith("junk_"):
+        if k in NAMES or k in SHADOW or k in BI_UNDECL or k in EXC_NAMES or k.startswith("junk_"):
             del d[k]
     out = []
     junk = 0
@@ -189,8 +243,8 @@ def run_history_c26(mod, ops):
                     out.append(["r", op[1], "NameError"])
                 except BaseException as e:
                     out.append(["r", op[1], "raise", type(e).__name__])
-            elif k == "w":
-                v = Marker(op[3])
+            elif k in ("w", "we"):
+                v = Marker(op[3]) if k == "w" else EXC_VALUES[op[3]]
                 if op[2] == "compiled":
                     getattr(mod, "w_" + op[1])(v)
                 elif op[2] == "setattr":
